@@ -672,4 +672,53 @@ theorem softkw_error_cuts_line_partial (pre post : List LTok) :
 example : headIsKeyword [.other, .colon, .nl] = true ∧ headIsKeyword [.other, .err, .colon, .nl] = false := by decide
 
 
+
+/-! ### the two indentation rules at the level of whole lines -/
+
+/-- **Tab/space rule at the line level**: a line (of any kind, also blank or comment) whose leading
+    whitespace has a tab after a space is rejected as `Tab`, located at that tab, in every lexer state. -/
+theorem indentGo_tab_after_space (stack : List Level) (need : Bool) (pos lastEnd : Nat) (nl : Bool)
+    (l : ILine) (rest : List ILine) (h : tabAfterSpace l.ws) :
+    ∃ i, indentGo stack need pos lastEnd nl (l :: rest) = some (.tab, pos + i) ∧ l.ws[i]? = some true := by
+  cases hs : scanWs 0 0 0 l.ws with
+  | ok lvl => exact absurd h ((scanWs_ok_iff l.ws).1 ⟨lvl, hs⟩)
+  | error i =>
+    refine ⟨i, ?_, (scanWs_error l.ws i hs).1⟩
+    simp [indentGo, hs]
+
+/-- **Dedent rule at the line level**: a statement line whose level is below the current one, is
+    comparable with every enclosing level and equals none of them is rejected as `Indentation`,
+    located at the first token of the line. -/
+theorem indentGo_dedent_unknown (stack : List Level) (top : Level) (need : Bool) (pos lastEnd : Nat)
+    (nl : Bool) (l : ILine) (rest : List ILine) (lvl : Level)
+    (hk : l.kind = .opener ∨ l.kind = .simple)
+    (hs : scanWs 0 0 0 l.ws = .ok lvl)
+    (hc : Chain (top :: stack)) (hcmp : ∀ x, x ∈ top :: stack → compareStrict lvl x ≠ none)
+    (hlt : compareStrict lvl top = some .lt) (hun : dedentUnknown lvl (top :: stack)) :
+    indentGo (top :: stack) need pos lastEnd nl (l :: rest) = some (.indentation, pos + l.ws.length) := by
+  have hd := ((dedentGo_spec lvl (top :: stack) hc hcmp).1).2 hun
+  have hkind : (l.kind = .blank || l.kind = .comment) = false := by
+    rcases hk with e | e <;> simp [e]
+  simp only [indentGo, hs, hkind, List.head?_cons, Option.getD_some, hlt, hd]
+  simp
+
+example : indentCheck [⟨[], .opener⟩, ⟨[false, false], .opener⟩, ⟨[false, false, false, false], .simple⟩,
+    ⟨[false], .simple⟩] true = some (.indentation, 24) := by decide
+
+
+/-! ### unterminated strings -/
+
+/-- **Unterminated single-quoted strings.**  `lex_string` closes a single-quoted literal exactly when
+    its text is a sequence of string items followed by the quote; in every other case (end of line,
+    end of file, trailing backslash) it reports an error.  The token ends just after that quote. -/
+theorem lexStringBody_closed_iff (q : Nat) (hq : q ≠ 92) (hq10 : q ≠ 10) (body : List Nat) (pos : Nat)
+    (rest : List Nat) (p : Nat) :
+    lexStringBody q false pos body = .ok (rest, p) ↔
+      ∃ pre, body = pre ++ q :: rest ∧ ShortItems q pre ∧ p = pos + pre.length + 1 :=
+  lexStringBody_short_ok q hq hq10 body.length body (Nat.le_refl _) pos rest p
+
+example : lexStringBody 39 false 1 [97, 92, 39, 98] = .error (.stringError, 5) := rfl
+example : lexStringBody 39 false 1 [97, 10, 39] = .error (.eolInString, 3) := rfl
+
+
 end PV.C04
